@@ -343,4 +343,74 @@ VARIANTS = [
      "expect": "silent",
      "old": "    def deserialize(self) -> Any:\n",
      "new": "    def __post_init__(self):\n        self._parsed_cache = None\n\n    def deserialize(self) -> Any:\n"},
+
+    # ---------------------------------------------------------------- D36: truth test of an ndarray object form
+    {"name": "R10 D36 re-introduced: BitmapAdapter.encode truth-tests the decoded ndarray", "file": TMPL, "expect": "C09.R10",
+     "old": "        if len(val) and isinstance(val[0], bytes):\n", "new": "        if val and isinstance(val[0], bytes):\n"},
+    {"name": "R10 empty-bitmap short cut through `not val`", "file": TMPL, "expect": "C09.R10",
+     "old": "        if len(val) and isinstance(val[0], bytes):\n",
+     "new": "        if not val:\n            return b''\n        if isinstance(val[0], bytes):\n"},
+    {"name": "P R10 explicit length comparison", "file": TMPL, "expect": "silent",
+     "old": "        if len(val) and isinstance(val[0], bytes):\n", "new": "        if len(val) > 0 and isinstance(val[0], bytes):\n"},
+    {"name": "P R10 None test and size test are array safe", "file": TMPL, "expect": "silent",
+     "old": "        if len(val) and isinstance(val[0], bytes):\n",
+     "new": "        if val is not None and len(val) != 0 and isinstance(val[0], bytes):\n"},
+
+    # round 8: EAFP enum decode vs. _missing_ hooks
+    {'name': 'R2 EAFP enum decode while the enum base class maps unknown values onto a member',
+     'expect': 'C09.R2',
+     'edits': [{'file': 'hippolyzer/lib/base/serialization.py',
+                'old': '        if val in iter(self.enum_cls):\n'
+                       '            val = self.enum_cls(val)\n'
+                       '            if pod:\n'
+                       '                return val.name\n'
+                       '            return val\n'
+                       '        elif self._strict:\n'
+                       '            raise ValueError(f"{val} is not a valid {self.enum_cls}")\n'
+                       "        # Doesn't exist in the enum, just return an int...\n"
+                       '        return val\n',
+                'new': '        try:\n'
+                       '            member = self.enum_cls(val)\n'
+                       '        except ValueError:\n'
+                       '            if self._strict:\n'
+                       '                raise\n'
+                       '            return val\n'
+                       '        return member.name if pod else member\n'},
+               {'file': 'hippolyzer/lib/base/datatypes.py',
+                'old': "class IntEnum(enum.IntEnum):\n    # Give a special repr() that'll eval in a REPL.\n",
+                'new': 'class IntEnum(enum.IntEnum):\n'
+                       '    @classmethod\n'
+                       '    def _missing_(cls, value):\n'
+                       '        return next(iter(cls), None)\n'
+                       '\n'
+                       "    # Give a special repr() that'll eval in a REPL.\n"}]},
+    {'name': 'P R2 EAFP enum decode, construction still raises for unknown values',
+     'file': 'hippolyzer/lib/base/serialization.py',
+     'expect': 'silent',
+     'old': '        if val in iter(self.enum_cls):\n'
+            '            val = self.enum_cls(val)\n'
+            '            if pod:\n'
+            '                return val.name\n'
+            '            return val\n'
+            '        elif self._strict:\n'
+            '            raise ValueError(f"{val} is not a valid {self.enum_cls}")\n'
+            "        # Doesn't exist in the enum, just return an int...\n"
+            '        return val\n',
+     'new': '        try:\n'
+            '            member = self.enum_cls(val)\n'
+            '        except ValueError:\n'
+            '            if self._strict:\n'
+            '                raise\n'
+            '            return val\n'
+            '        return member.name if pod else member\n'},
+    {'name': 'P R2 _missing_ hook with the membership-tested decode (never reached for unknown values)',
+     'file': 'hippolyzer/lib/base/datatypes.py',
+     'expect': 'silent',
+     'old': "class IntEnum(enum.IntEnum):\n    # Give a special repr() that'll eval in a REPL.\n",
+     'new': 'class IntEnum(enum.IntEnum):\n'
+            '    @classmethod\n'
+            '    def _missing_(cls, value):\n'
+            '        return next(iter(cls), None)\n'
+            '\n'
+            "    # Give a special repr() that'll eval in a REPL.\n"},
 ]
